@@ -233,6 +233,13 @@ theorem substitute_wf_static {c c' : Circ} {i : Nat} {impl : Circ} (wf : WFc c) 
 theorem substStatic_pre {c : Circ} {i : Nat} {impl : Circ} (wf : WFc c) (hst : substStatic c i impl = true) :
     substPre c i impl = true := KV.CircObj.substPre_of_static wf hst
 
+/-- since the repair of D32 (when the walk from the first output of the implementation ends at one of its PORTS — a
+feed-through cell `input A -> fork -> output X` — the implementation has no designated cell) the clause "the designated cell
+is not a port" of `substStatic` (`desNotPort`) holds by itself for every implementation none of whose ports is a
+flip-flop/latch: feed-through implementations are inside the structural theorems (`exFeed` below) -/
+theorem designated_not_port {impl : Circ} (h : (impl.io.all fun p => !(isSeqKind (impl.nobj p).kind)) = true) :
+    desNotPort impl = true := KV.CircObj.desNotPort_of_portsNotSeq h
+
 /-- `c.resolve_tlib_cells(tlib)`: the loop over the snapshot `list(self.nodes)`; `resolvePre` = every substitution it
 performs is a well-formed use -/
 theorem resolve_wf {lib : Lib} {c c' : Circ} (wf : WFc c) (hpre : resolvePre lib c = true) (h : resolveObj lib c = some c') :
@@ -317,6 +324,20 @@ example : ((run2 empty exHistoryGap).map fun c => (substStatic c 1 exGap, substP
   decide +kernel
 example : ((run2 empty (exHistoryGap ++ [.substitute 1 exGap])).map fun c =>
     (c.nodes.length, c.lines.length, invOK c, c.nodes.map fun j => (c.nobj j).outs.length)) = some (4, 3, true, [1, 1, 0, 1]) := by
+  decide +kernel
+
+/-- D32 (fixed): the feed-through implementation `input A -> fork a -> output X`.  The walk for the designated cell ends at
+the port `A`, so there is none: the instance is removed, the fork `u~a` takes its place between the instance's lines — the
+structural precondition holds and the result (3 nodes, 2 lines) is well-formed.  (Before the repair the port became the
+designated cell and the graph was corrupted.) -/
+def exFeed : Circ := setState
+  { nodes := [("A", "input"), ("a", FORK), ("X", "output")], lines := [(0, 0, 1, 0), (1, 0, 2, 0)], io := [0, 2] }
+example : (implShape exFeed).map (·.des) = some none ∧
+    ((run2 empty exHistoryGap).map fun c => (substStatic c 1 exFeed, substPre c 1 exFeed)) = some (true, true) := by
+  decide +kernel
+example : ((run2 empty (exHistoryGap ++ [.substitute 1 exFeed])).map fun c =>
+    (c.nodes.length, c.lines.length, invOK c, c.nodes.map fun j => (c.nobj j).kind)) =
+      some (3, 2, true, ["input", "output", FORK]) := by
   decide +kernel
 
 /-- an open output pin with dangling logic behind it: the half adder of `exHistory2` with its second output open — the OR
